@@ -135,6 +135,12 @@ Definition st3 (s : st) (n : N) (new : option ninfo) : st :=
 Definition st4 (s : st) (n : N) : st :=
   fold_left (fun s e => if N.eqb (fst (fst e)) n then mark_dirty s (snd (fst e)) else s) (s_nr s) s.
 
+Lemma on_node_forced_eq : forall f s n v,
+  on_node_forced f s n v =
+  let old := aget N.eqb (s_nodes s) n in
+  let new := option_map ninfo_of v in
+  st4 (st3 (st2 (st1 f s n old new) n old) n new) n.
+Proof. reflexivity. Qed.
 Lemma on_node_eq : forall f s n v,
   on_node f s n v =
   let old := aget N.eqb (s_nodes s) n in
